@@ -161,9 +161,20 @@ static void format_operand(FILE *out, const DecodedInstruction *instr, int idx,
         case OPERAND_I64:
             fprintf(out, " %lld", (long long)instr->operands[idx].i64);
             break;
-        case OPERAND_F64:
-            fprintf(out, " %.17g", instr->operands[idx].f64);
+        case OPERAND_F64: {
+            uint64_t bits;
+            memcpy(&bits, &instr->operands[idx].f64, sizeof(bits));
+            uint64_t mantissa = bits & 0xFFFFFFFFFFFFFULL;
+            if ((bits & 0x7FF0000000000000ULL) == 0x7FF0000000000000ULL &&
+                mantissa != 0 && mantissa != 0x8000000000000ULL) {
+                /* %.17g prints every NaN as nan: keep payload and signalling bit */
+                fprintf(out, " %snan(0x%llx)", (bits >> 63) ? "-" : "",
+                        (unsigned long long)mantissa);
+            } else {
+                fprintf(out, " %.17g", instr->operands[idx].f64);
+            }
             break;
+        }
         case OPERAND_NONE:
             break;
     }
